@@ -13,7 +13,7 @@ PROP = 'C13'
 MANIFEST = {
     'engine': 'E3-sock (connection level)',
     'level': 'exploration',
-    'technique': 'Hypothesis-generated message sequences, send plans (short writes, EAGAIN, buffer capacity), receive fragmentation plans and byte-stream corruptions on two real TcpConnection objects over fake sockets and a mask-honouring fake poller; prefix/round-trip oracle',
+    'technique': 'Hypothesis-generated message sequences, send plans (short writes, EAGAIN, buffer capacity), receive fragmentation plans and byte-stream corruptions on two real TcpConnection objects over fake sockets and a mask-honouring fake poller; prefix/round-trip oracle; plus coverage-guided byte-level fuzzing of the receiver (atheris/libFuzzer) with the oracle inside the target',
     'text': 'Two TcpConnection objects are joined by an in-memory byte pipe. The generator chooses message sizes (0 .. several buffer sizes), how many bytes each socket.send accepts, EAGAINs, pipe capacity, how the stream is cut into recv() '
             'results (down to 1 byte, merged frames), and optionally a corruption of one frame (length smaller/larger/zero/negative/huge, payload bit flip, truncation + EOF, trailing garbage). Poller events are delivered only for subscribed masks. '
             'Oracle: without corruption the received list is at all times a prefix of the sent list and equals it once everything is flushed; with a corruption at frame i the frames before i arrive exactly once in order, no exception '
